@@ -23,6 +23,8 @@ func init() {
 			"(R16.2) the directory cookie reaches the dirent cache as the guest's 64-bit value (no narrowing); (R16.3) descriptor allocation scans the occupancy words from word 0 (lowest-free) and grows by one word only when all are full; " +
 			"(R16.4) fd_readdir's reported bufused depends on the truncation indicator (an entry that does not fit is reported as truncated, not as end of directory); (R16.5) the dirent cache returns cached entries only after the refill test (a short result means end of directory); (R16.6) the dirent cache never reduces the requested count, because fd_readdir asks for one entry more than fits and reads a short answer as end-of-directory.",
 		Rules: []core.Rule{
+			{ID: "R16.10", Template: "T-MUSTPASS", Text: "fd_readdir at cookie 0 rewinds and drops the cached window on every path", Min: 1},
+			{ID: "R16.9", Template: "T-TYPESTATE", Text: "fd_renumber: no failing return after the source entry left the table (same analysis as C15 R15.7)", Min: 1},
 			{ID: "R16.8", Template: "T-MUSTPASS", Text: "Close of a sysfs file type closes the host object it wraps (genuine defect found and fixed: TCP connections)", Min: 3},
 			{ID: "R16.7", Template: "T-CONSULT", Text: "the dirent cache takes only an empty read for the end of the directory (genuine defect found and fixed)", Min: 2},
 			{ID: "R16.1", Template: "T-TYPESTATE", Text: "closed entries leave the table; re-insertion under a different key is guarded by key inequality; context close resets the table", Min: 4},
@@ -85,6 +87,8 @@ func tableMethod(ci ssa.CallInstruction) string {
 
 func runC16(c *core.Ctx) {
 	checkDirentEOF(c)
+	checkRewindUnconditional(c)
+	checkTableKeysAs(c, "", "R16.9")
 	checkCloseReachesHostObject(c)
 	c.SSA()
 	checkCountNotClamped(c)
